@@ -24,6 +24,7 @@ func main() {
 	dump := flag.String("dump", "", "debug: dump guards of every call in the named function (substring match)")
 	warm := flag.Bool("warm", false, "load the repository once (warms the build cache)")
 	list := flag.Bool("list", false, "list function keys matching -dump substring")
+	flag.StringVar(&sinkFilter, "sink", "", "debug: with -dump, only show instructions containing this substring")
 	flag.Parse()
 	if os.Getenv("VERIF_TIER") != "" && *tier == "" {
 		*tier = os.Getenv("VERIF_TIER")
@@ -60,6 +61,8 @@ func main() {
 	os.Exit(code)
 }
 
+var sinkFilter string
+
 func dumpFuncs(p *ir.Program, sub string, listOnly bool) {
 	var names []string
 	for n := range p.Funcs {
@@ -75,6 +78,7 @@ func dumpFuncs(p *ir.Program, sub string, listOnly bool) {
 			continue
 		}
 		for _, b := range fn.Blocks {
+			shown := false
 			for _, in := range b.Instrs {
 				show := false
 				var what string
@@ -108,13 +112,23 @@ func dumpFuncs(p *ir.Program, sub string, listOnly bool) {
 					show = true
 					what = "mapupdate " + ir.Desc(x.Map) + "[" + ir.DescN(x.Key, 3) + "]"
 				}
+				if strings.HasPrefix(what, "builtin:") || strings.HasPrefix(what, "utils.LogAttr") || strings.HasPrefix(what, "fmt.") || strings.HasPrefix(what, "store local(") || strings.HasPrefix(what, "strconv.") {
+					show = false
+				}
+				if sinkFilter != "" && !strings.Contains(what, sinkFilter) {
+					show = false
+				}
 				if !show {
 					continue
 				}
-				fmt.Printf("  b%d %s  %s\n", b.Index, p.InstrPos(in), what)
-				for _, g := range ir.Guards(in) {
-					fmt.Printf("        | %s\n", g.Fact)
+				if !shown {
+					shown = true
+					fmt.Printf(" b%d guards:\n", b.Index)
+					for _, g := range ir.GuardsOfBlock(b) {
+						fmt.Printf("        | %s\n", g.Fact)
+					}
 				}
+				fmt.Printf("  b%d %s  %s\n", b.Index, p.InstrPos(in), what)
 			}
 		}
 	}
